@@ -30,6 +30,7 @@ reacts (retries under zkutils.with_retry, propagates otherwise - a propagated
 kazoo exception ends that run, nothing else is swallowed), the resulting tree
 is checked with the same oracle, the archiver re-run and checked again.
 """
+from mc import modstate  # noqa: E402
 import collections
 import itertools
 import os
@@ -655,6 +656,7 @@ def multisets(menu, max_len):
 def build(case):
     """-> (world, kind, steps, scheduled)"""
     fam = case['family']
+    modstate.reset()        # module-level memos do not leak between cases
     CLOCK.reset()
     CLOCK.advance(L0)
     if fam == 'T':
@@ -831,30 +833,41 @@ def _second_cycle_part(base, case, sched, out, stats):
     """Two archiver cycles of ONE process (same modules, same client object):
     between them an instance is scheduled that already has a full batch of
     old events; they must still be live after the second cycle."""
-    w2 = base.clone()
-    step = ('trace', case['batch'])
-    err = _complete(w2, step)
-    stats['runs'] += 1
-    if err:
-        return                      # reported by the main part already
-    w2.add_scheduled(LATE_INSTANCE)
-    for j in range(case['batch']):
-        w2.add_event('trace', LATE_INSTANCE, age_ts('W'), 'pending',
-                     'late%d' % j)
-    before2 = Before(w2, 'trace', list(sched) + [LATE_INSTANCE])
-    client = w2.arch
-    err = _complete(w2, step)
-    stats['runs'] += 1
-    if w2.arch is not client:
-        raise HarnessError('client object changed between cycles')
-    where = ('second cycle of the same archiver process, %s scheduled '
-             'between the cycles' % LATE_INSTANCE)
-    if err:
-        err['detail']['where'] = where
-        out.append(err)
-        return
-    stats['second_cycle_checks'] += 1
-    check_archive(w2, before2, where, out, stats)
+    # between the cycles the instance is scheduled next to the others, or
+    # (same number of scheduled instances) in place of one that leaves
+    for leaving in [None] + list(sched):
+        modstate.reset()
+        w2 = base.clone()
+        step = ('trace', case['batch'])
+        err = _complete(w2, step)
+        stats['runs'] += 1
+        if err:
+            return                  # reported by the main part already
+        now_sched = list(sched)
+        if leaving is not None:
+            w2.admin.delete(z.path.scheduled(leaving))
+            now_sched.remove(leaving)
+            stats['second_cycle_swaps'] += 1
+        w2.add_scheduled(LATE_INSTANCE)
+        for j in range(case['batch']):
+            w2.add_event('trace', LATE_INSTANCE, age_ts('W'), 'pending',
+                         'late%d' % j)
+        before2 = Before(w2, 'trace', now_sched + [LATE_INSTANCE])
+        client = w2.arch
+        err = _complete(w2, step)
+        stats['runs'] += 1
+        if w2.arch is not client:
+            raise HarnessError('client object changed between cycles')
+        where = ('second cycle of the same archiver process, %s scheduled '
+                 'between the cycles%s'
+                 % (LATE_INSTANCE,
+                    '' if leaving is None else ' while %s left' % leaving))
+        if err:
+            err['detail']['where'] = where
+            out.append(err)
+            return
+        stats['second_cycle_checks'] += 1
+        check_archive(w2, before2, where, out, stats)
 
 
 MIB = 1024 * 1024
